@@ -13,6 +13,15 @@ import (
 
 // target is the vertex an operation with Sub = sub is applied to.
 func target(root ast.Vertex, sub int) ast.Vertex {
+	if sub < 0 {
+		// any vertex of the tree, by pre-order number: an expression, a name, a
+		// parameter, a class member ... (the same number selects the same vertex in
+		// every tree of the same source)
+		if vs := vertices(root); len(vs) > 0 {
+			return vs[(-sub-1)%len(vs)]
+		}
+		return root
+	}
 	if sub > 0 {
 		if r, ok := root.(*ast.Root); ok && len(r.Stmts) > 0 {
 			if v := r.Stmts[(sub-1)%len(r.Stmts)]; v != nil {
@@ -24,6 +33,9 @@ func target(root ast.Vertex, sub int) ast.Vertex {
 }
 
 func opKey(kind string, sub int) string {
+	if sub < 0 {
+		return kind + "@vertex" + strconv.Itoa(-sub-1)
+	}
 	if sub > 0 {
 		return kind + "@stmt" + strconv.Itoa(sub-1)
 	}
@@ -61,7 +73,7 @@ func runC13(s *scn.Scenario, res *scn.Result) {
 		}
 		seenKey := map[string]bool{}
 		for _, op := range s.History {
-			if key := opKey(op.Kind, op.Sub); op.Sub > 0 && !seenKey[key] && len(keys) < len(opKinds)+8 {
+			if key := opKey(op.Kind, op.Sub); op.Sub != 0 && !seenKey[key] && len(keys) < len(opKinds)+8 {
 				seenKey[key] = true
 				keys = append(keys, refKey{op.Kind, op.Sub})
 			}
@@ -136,6 +148,8 @@ func runC13(s *scn.Scenario, res *scn.Result) {
 			lastKind = key
 			if op.Sub > 0 {
 				res.Probes["operation_applied_to_a_statement_of_the_tree"]++
+			} else if op.Sub < 0 {
+				res.Probes["operation_applied_to_an_inner_vertex_of_the_tree"]++
 			}
 			var f *scn.WFault
 			if op.Fault != nil && refCalls[key] > 0 {
